@@ -706,13 +706,51 @@ theorem fr_normalize_idem (country code : Str) (hcd : country.filter isDig = [])
         · simp [hl, *]
       · simp [*]
 
-/-- GR/EL from the tax country code `EL`: idempotent, country and code -/
-theorem el_normalize_idem (code : Str) :
-    let r := normalize "EL" ['E','L'] code
+/-- GR/EL: the result does not depend on which of the two country codes the identity was
+    written with (nor on any other text in the country field): the country is set to `EL`
+    before the code is cleaned (library fix `d935db9`) -/
+theorem el_normalize_any_country (country code : Str) :
+    normalize "EL" country code = normalize "EL" ['E','L'] code := rfl
+
+/-- GR/EL: idempotent, country and code, from every country code (`GR`, `EL`) and every text.
+    Before the fix `d935db9` this held from the tax country code `EL` only: under the ISO code
+    `GR` the prefix `EL` survived the first pass and was removed by the second
+    (was known finding normalize-rewritten-country-prefix) -/
+theorem el_normalize_idem (country code : Str) :
+    let r := normalize "EL" country code
     normalize "EL" r.1 r.2 = r := by
   intro r
   show (['E','L'], normalizeIdentity ['E','L'] (altsOf "EL") (normalizeIdentity ['E','L'] (altsOf "EL") code)) = r
   rw [normalize_idem]; rfl
+
+/-- GR/EL: the country becomes `EL` and the code is the cleaned text without its leading run
+    of `EL` / `GR` codes, whichever country code the identity was written with -/
+theorem el_normalize_spec (country code : Str) :
+    normalize "EL" country code =
+      (['E','L'], Spec.TaxId.stripCodes [['E','L'], ['G','R']] (stripBad (upper code))) := by
+  show (['E','L'], normalizeIdentity ['E','L'] (altsOf "EL") code) = _
+  rw [normalize_eq_spec ['E','L'] (altsOf "EL") code (by simp [altsOf])]
+  rfl
+
+/-- GR/EL: the result begins with neither `EL` nor `GR` -/
+theorem el_normalize_no_prefix_left (country code : Str) :
+    ['E','L'].isPrefixOf (normalize "EL" country code).2 = false ∧
+    ['G','R'].isPrefixOf (normalize "EL" country code).2 = false := by
+  have h := normalize_no_prefix_left ['E','L'] (altsOf "EL") code
+  exact ⟨h.1 (by simp), h.2 ['G','R'] (by simp [altsOf]) (by simp)⟩
+
+/-- GR/EL: any number of leading `EL` / `GR` prefixes does not matter, for both country codes -/
+theorem el_normalize_insensitive_prefixes (country : Str) (ps : List Str) (code : Str)
+    (hp : ∀ p ∈ ps, p = ['E','L'] ∨ p = ['G','R']) :
+    normalize "EL" country (ps.flatten ++ code) = normalize "EL" country code := by
+  show (['E','L'], normalizeIdentity ['E','L'] (altsOf "EL") (ps.flatten ++ code)) =
+    (['E','L'], normalizeIdentity ['E','L'] (altsOf "EL") code)
+  rw [normalize_insensitive_prefixes ['E','L'] (altsOf "EL") ps code (by simp [altsOf])
+    (by simp [altsOf, isAZ09, isUp, isDig]) (fun p h => by simpa [altsOf] using hp p h)]
+
+example : normalize "EL" "GR".toList ("EL".toList ++ "GR".toList ++ "925667500".toList) =
+    normalize "EL" "GR".toList "925667500".toList ∧
+    (normalize "EL" "GR".toList "925667500".toList).2 = "925667500".toList := by decide
 
 /-- every regime normaliser keeps the digits of the code: the digits of the
     input are the digits of the output (FR: a suffix of them, the two key
@@ -739,7 +777,8 @@ theorem normalize_keeps_digits_regime (cc : String) (country code : Str) (hc : c
           simp
         · exact (keepsDigits_of_eq code _ (gen [] (by simp))).2
       · exact (keepsDigits_of_eq code _ (gen [] (by simp))).2
-  · have := keepsDigits_of_eq code _ (gen (altsOf "EL") (by simp [altsOf, isDig])); exact ⟨this.2, fun _ => this.1⟩
+  · have := keepsDigits_of_eq code _ (filter_isDig_normalizeIdentity ['E','L'] (altsOf "EL") code (by simp [isDig]) (by simp [altsOf, isDig]))
+    exact ⟨this.2, fun _ => this.1⟩
   · have := keepsDigits_of_eq code _ (gen (altsOf "IN") (by simp [altsOf, isDig])); exact ⟨this.2, fun _ => this.1⟩
   · have := keepsDigits_of_eq code _ (gen (altsOf "GB") (by simp [altsOf, isDig])); exact ⟨this.2, fun _ => this.1⟩
   · have := keepsDigits_of_eq code _ (gen [] (by simp)); exact ⟨this.2, fun _ => this.1⟩
@@ -1152,10 +1191,14 @@ example : Spec.TaxId.PL.valid "5260001246".toList = true ∧ edit1 "5260001246".
 /-- doubled prefixes are removed in one normalisation -/
 example : normalizeIdentity "EL".toList [['G','R']] "GREL925667500".toList = "925667500".toList ∧
     normalizeIdentity "EL".toList [['G','R']] "ELGR925667500".toList = "925667500".toList := by decide
-/-- GR/EL (known finding normalize-rewritten-country-prefix): under the ISO country code `GR`
-    the prefix `EL` is kept, the country is rewritten to `EL`, and the second normalisation removes it -/
-example : normalize "EL" "GR".toList "EL 925667500".toList = ("EL".toList, "EL925667500".toList) ∧
-    normalize "EL" "EL".toList "EL925667500".toList = ("EL".toList, "925667500".toList) := by decide
+/-- GR/EL (was known finding normalize-rewritten-country-prefix, fixed in `d935db9`): under the
+    ISO country code `GR` the prefixes `EL` and `GR` are both removed by the first normalisation,
+    in either order, exactly as under `EL`; the result is a fixed point -/
+example : normalize "EL" "GR".toList "EL 925667500".toList = ("EL".toList, "925667500".toList) ∧
+    normalize "EL" "GR".toList "GREL925667500".toList = ("EL".toList, "925667500".toList) ∧
+    normalize "EL" "GR".toList "el-gr 925667500".toList = ("EL".toList, "925667500".toList) ∧
+    normalize "EL" "EL".toList "EL 925667500".toList = ("EL".toList, "925667500".toList) ∧
+    normalize "EL" "EL".toList "925667500".toList = ("EL".toList, "925667500".toList) := by decide
 example : (normalize "CH" "CH".toList "CHE-284.156.502 MWST".toList).2 = "E284156502".toList ∧
     (normalize "FR" "FR".toList "FR 732 829 320".toList).2 = "44732829320".toList ∧
     (normalize "MX" "MX".toList "k&ñ-010101 ab1".toList).2 = "K&Ñ010101AB1".toList := by decide
@@ -1310,6 +1353,11 @@ theorem gr_shape_hasValidChecksum :
 theorem gr_shape_normalizeTaxIdentity :
     gr_lits_normalizeTaxIdentity = ["s:EL"] ∧
     gr_ops_normalizeTaxIdentity = ["=="] := by decide
+/-- the country is overwritten *before* the code is cleaned (model: the country handed to
+    `normalizeIdentity` is `EL`); the other order is the repaired defect `d935db9` -/
+theorem gr_order_normalizeTaxIdentity :
+    gr_steps_normalizeTaxIdentity = ["if tID == nil { return }", "tID.Country = \"EL\"",
+      "tax.NormalizeIdentity(tID, l10n.GR)"] := by decide
 theorem in_shape_validateTaxCode :
     in_lits_validateTaxCode = ["s:"] ∧
     in_ops_validateTaxCode = ["u!", "||", "==", "u!", "!="] := by decide
@@ -1325,6 +1373,11 @@ theorem in_shape_valueToChar :
 theorem in_shape_normalizeTaxIdentity :
     in_lits_normalizeTaxIdentity = ["s:IN"] ∧
     in_ops_normalizeTaxIdentity = ["=="] := by decide
+/-- India cleans the code with the identity's own country first and overwrites the country
+    afterwards (model: `normalizeIdentity country …`, then `IN`) -/
+theorem in_order_normalizeTaxIdentity :
+    in_steps_normalizeTaxIdentity = ["if tID == nil { return }", "tax.NormalizeIdentity(tID, l10n.IN)",
+      "tID.Code = cbc.Code(strings.ToUpper(tID.Code.String()))", "tID.Country = \"IN\""] := by decide
 theorem it_shape_validateTaxCode :
     it_lits_validateTaxCode = ["s:", "48", "0", "9", "11", "10", "10"] ∧
     it_ops_validateTaxCode = ["u!", "||", "==", "-", "<", "||", ">", "!=", "!="] := by decide
